@@ -877,7 +877,10 @@ def fam_history(v, n, model):
                     op["data"] = []
                 ops.append(op)
             elif x < 0.5:
-                ops.append({"op": "world", "w": wid, "do": "update", "sid": s, "config": default, "data": _attr_data(rng) if rng.random() < 0.9 else []})
+                op_u = {"op": "world", "w": wid, "do": "update", "sid": s, "config": default, "data": _attr_data(rng) if rng.random() < 0.9 else []}
+                if op_u["data"] and rng.random() < 0.5:      # the same write spelled through set()
+                    op_u["via"] = rng.choice(["set_kw", "set_attr"])
+                ops.append(op_u)
             elif x < 0.65:
                 ops.append({"op": "world", "w": wid, "do": "get_data", "sid": s, "config": default, "enc": rng.choice(["str", "uri", "none"]), "reuse": rng.random() < 0.5})
             elif x < 0.75:
@@ -929,7 +932,8 @@ def fam_history(v, n, model):
             ops += [dict(r) for r in reads]
             ops.append({"op": "world", "w": wid, "do": "create", "sid": target, "config": default, "data": [["comment", '"first"']]})
             ops += [dict(r) for r in reads]
-            ops.append({"op": "world", "w": wid, "do": "update", "sid": target, "config": default, "data": [["comment", '"second"'], ["status", "1"]]})
+            ops.append({"op": "world", "w": wid, "do": "update", "sid": target, "config": default, "data": [["comment", '"second"'], ["status", "1"]],
+                        "via": rng.choice(["set_attr", "set_kw", "update"])})
             ops += [dict(r) for r in reads]
             # a NEW key written with null next to unchanged keys; a value replaced by an equal-looking one (1 -> true)
             ops.append({"op": "world", "w": wid, "do": "update", "sid": target, "config": default, "data": [["comment", '"second"'], ["approved", "null"]]})
